@@ -128,6 +128,18 @@ class OwnGen:
 
 # ---------------------------------------------------------------------------------------------
 
+def coq_mismatches(*a, **kw):
+    """core.coq_mismatches, retried once after rebuilding our .vo files when the shared Coq tree was
+    rebuilt underneath us by a concurrent make ("inconsistent assumptions")."""
+    try:
+        return core.coq_mismatches(*a, **kw)
+    except core.CheckFailure as e:
+        if "inconsistent assumptions" not in str(e):
+            raise
+        core.coq_make(["Props/C28.vo", "Infer/Exec.vo"])
+        return core.coq_mismatches(*a, **kw)
+
+
 def load_corpus():
     out = []
     d = os.path.join(core.VERIF, "corpus", "C28")
@@ -255,7 +267,7 @@ def run(ctx):
     # ---- Coq: wf_answer on every real answer, wf_query on every real query, model of apply == real ----
     imports = ["Ir.Syntax", "Ir.Fold", "Infer.Canon", "Infer.Answer", "Infer.Exec"]
     wf_pairs = [(Pair(query, Pair(bs, subst)), True) for _, query, _, bs, subst, _ in answers]
-    bad = core.coq_mismatches(ctx.work, "wf_answer", imports, fn="(fun p => wf_query (fst p) && wf_answer (fst p) (snd p))", eqb="Bool.eqb",
+    bad = coq_mismatches(ctx.work, "wf_answer", imports, fn="(fun p => wf_query (fst p) && wf_answer (fst p) (snd p))", eqb="Bool.eqb",
                               in_ty="query * answer", out_ty="bool", pairs=wf_pairs, shard=ctx.n(100, 400))
     ctx.cov["families"]["wf_answer(real answers)"] = {"cases": len(wf_pairs), "nontrivial": sum(1 for a in answers if a[3] or a[1][1][0]), "rejected": len(bad)}
     for j in bad[:4]:
@@ -270,7 +282,7 @@ def run(ctx):
         viol += 1
     ap_pairs = [(Pair(Pair(bs, subst), query), ("Panic", "OtherPanic") if is_panic(applied) else ("Ok", applied[1]), j)
                 for j, (_, query, _, bs, subst, applied) in enumerate(answers)]
-    bad2 = core.coq_mismatches(ctx.work, "apply", imports, fn="(fun p => apply_answer (fst p) (snd p))", eqb="(res_any_eqb tm_eqb)",
+    bad2 = coq_mismatches(ctx.work, "apply", imports, fn="(fun p => apply_answer (fst p) (snd p))", eqb="(res_any_eqb tm_eqb)",
                                in_ty="answer * query", out_ty="res tm", pairs=[(a, b) for a, b, _ in ap_pairs], shard=ctx.n(100, 400))
     ctx.cov["families"]["model==impl:apply_answer"] = {"cases": len(ap_pairs), "nontrivial": len(ap_pairs), "mismatches": len(bad2)}
     for j in bad2[:2]:
